@@ -21,6 +21,7 @@ from vlib import Check, Inconclusive, SEED, log  # noqa: E402
 import fenspec  # noqa: E402
 import searchlib as sl  # noqa: E402
 import ucilib as ul  # noqa: E402
+import booklib as bl  # noqa: E402
 import random  # noqa: E402
 
 VERIF = vlib.VERIF
@@ -45,7 +46,7 @@ def tla_set(xs):
     return "{" + ", ".join('"%s"' % x for x in xs) + "}"
 
 
-def game_cfg(depth, stack, acts, detail, invariants=("TypeOK", "PosWellFormed", "Obs"), thin=1):
+def game_cfg(depth, stack, acts, detail, invariants=("TypeOK", "PosWellFormed", "Obs"), thin=1, walks=0, walkseed=1):
     return """INIT Init
 NEXT Next
 CONSTANTS
@@ -55,9 +56,11 @@ CONSTANTS
   Acts = %s
   Detail = %s
   Thin = %d
+  Walks = %d
+  WalkSeed = %d
 INVARIANTS %s
 CHECK_DEADLOCK FALSE
-""" % (depth, stack, tla_set(acts), tla_set(detail), thin, " ".join(invariants))
+""" % (depth, stack, tla_set(acts), tla_set(detail), thin, walks, walkseed, " ".join(invariants))
 
 
 def art_tree(fens, depth, detail, tag, workers=16, timeout=7200):
@@ -1381,6 +1384,301 @@ def check_C16(tier):
                       "must survive, answer isready, keep its position, and the session must stay a behaviour of UciSession.tla with the "
                       "malformed line as a no-op; non-trivial = generated/mutated strings and malformed sessions")
     ck.cov["samples"] = (ck.cov["samples"] or []) + [{"malformed_line": m[:80]} for m in MALFORMED[:3]]
+    return ck.finish()
+
+
+def book_games(tier):
+    n, d = (300, 16) if tier == "quick" else (5000, 40)
+    art = vlib.tlc("ChessGame", game_cfg(d, d, ["Move"], ["san"], walks=n, walkseed=SEED),
+                   files={"roots.ndjson": roots_ndjson([START_FEN])}, workers=16, tag="bookgames", timeout=4 * 3600)
+    nodes, games = bl.load_games(art, d)
+    return art, nodes, games
+
+
+def check_C19(tier):
+    ck = Check("C19", tier)
+    quick = tier == "quick"
+    rng = random.Random(SEED)
+    cnt = {}
+
+    def disc(kind, sig, detail, replay=None):
+        ck.discs.append({"prop": "C19", "kind": kind, "sig": sig, "fen": "", "detail": detail, "replay": replay or {}})
+        key = "C19|%s|%s" % (kind, sig)
+        ck.disc_count[key] = ck.disc_count.get(key, 0) + 1
+    # ---- 1. the build protocol, all interleavings (abstract instance)
+    cfg = "SPECIFICATION Spec\nCONSTANTS\n  Games <- MCGames\nINVARIANTS SchedIndependent LinksSound OneParent\nCHECK_DEADLOCK FALSE\n"
+    a0 = vlib.tlc("BookBuild", cfg, workers=8, tag="book-mc", keep_out=False)
+    ck.add_tlc(a0)
+    # ---- 2. games: behaviours of ChessGame from the start position
+    art, nodes, games = book_games(tier)
+    ck.add_tlc(art)
+    cnt["games"] = len(games)
+    cnt["distinct_games"] = len(set(games))
+    count, edges = bl.expected_book(nodes, games)
+    keys = bl.keys_of(list(count))
+    exp_pos = {keys[i]: c for i, c in count.items()}
+    exp_edges = {(keys[a], m): keys[b] for (a, m), b in edges.items()}
+    if len(exp_pos) != len(count):
+        raise Inconclusive("two position identities share an engine key")
+    cnt["positions"] = len(exp_pos)
+    cnt["transposed_positions"] = sum(1 for i in count if len({a for (a, m), b in edges.items() if b == i}) > 1)
+
+    def compare(dump, label, exp_pos=exp_pos, exp_edges=exp_edges, replay=None):
+        pos, links = bl.book_summary(dump)
+        missing = [k for k in exp_pos if k not in pos]
+        extra = [k for k in pos if k not in exp_pos]
+        wrong = [k for k in exp_pos if k in pos and pos[k] != exp_pos[k]]
+        if missing or extra or wrong:
+            disc("book-content", "content/" + label, {"missing_positions": len(missing), "extra_positions": len(extra), "wrong_counters": len(wrong),
+                                                       "example": (missing + extra + wrong)[:3]}, replay)
+        seen = set()
+        for e in dump["entries"]:
+            ms = [m["m"] for m in e["moves"]]
+            if len(ms) != len(set(ms)):
+                disc("move-offered-twice", "links/duplicate/" + label, {"key": e["key"], "moves": [fenspec.mv_uci(m) for m in ms]}, replay)
+            for m in e["moves"]:
+                want = exp_edges.get((e["key"], m["m"]))
+                if want is None:
+                    disc("offered-move-not-playable", "links/not-a-played-legal-move/" + label, {"key": e["key"], "move": fenspec.mv_uci(m["m"])}, replay)
+                elif want != m["next"]:
+                    disc("offered-move-wrong-successor", "links/wrong-successor/" + label, {"key": e["key"], "move": fenspec.mv_uci(m["m"])}, replay)
+                seen.add(m["next"])
+        orphans = [k for k in pos if k not in seen and k != dump["root"]]
+        if orphans:
+            disc("position-not-linked", "links/orphan/" + label, {"count": len(orphans)}, replay)
+        return pos
+    # ---- 3. the three formats
+    promo_free = [g for g in games if all(m < 4096 for m in g)]
+    texts = {
+        "Simple": "\n".join(bl.render_simple(g) for g in games if g in set(promo_free)) + "\n",
+        "San": "\n".join(bl.render_san(nodes, g, rng.choice(["1-0", "0-1", "1/2-1/2"])) for g in games) + "\n",
+        "Pgn": "\n".join(bl.render_pgn(nodes, g, rng, i) for i, g in enumerate(games)),
+    }
+    dumps = {}
+    for fmt, text in texts.items():
+        dump, rc, err, _ = bl.book_run(text, fmt)
+        cnt["builds"] = cnt.get("builds", 0) + 1
+        if dump is None:
+            disc("build-fails", "build-fails/" + fmt, {"rc": rc, "stderr": err})
+            continue
+        if fmt == "Simple" and len(promo_free) != len(games):
+            c2, e2 = bl.expected_book(nodes, promo_free)
+            dumps[fmt] = compare(dump, fmt, {keys[i]: c for i, c in c2.items()}, {(keys[a], m): keys[b] for (a, m), b in e2.items()})
+        else:
+            dumps[fmt] = compare(dump, fmt)
+    # ---- 4. a line with an illegal / unreadable move contributes exactly its legal prefix
+    # tokens that denote no legal move in ANY position (the book reader matches unanchored, so free text is
+    # avoided): a pawn move to the last rank without promotion piece, a queen move to rank 9, a null move
+    bad_tokens = {"San": ["e1", "e8", "a8", "h1", "Qh9", "Zz"], "Simple": ["a1a1", "h8h8", "e4e4"]}
+    for fmt in ("San", "Simple"):
+        cut_games, lines = [], []
+        for gi, g in enumerate(games[:(120 if quick else 3000)]):
+            if fmt == "Simple" and any(m >= 4096 for m in g):
+                continue
+            k = rng.randint(0, len(g) - 1)
+            tok = rng.choice(bad_tokens[fmt])
+            if fmt == "San":
+                toks = []
+                for j in range(len(g)):
+                    if j % 2 == 0:
+                        toks.append("%d." % (j // 2 + 1))
+                    toks.append(tok if j == k else bl.move_san(nodes, g, j))
+                lines.append(" ".join(toks) + " 1-0")
+            else:
+                lines.append("".join(tok if j == k else fenspec.mv_uci(g[j])[:4] for j in range(len(g))))
+            cut_games.append(g[:k])
+        c3, e3 = bl.expected_book(nodes, cut_games)
+        dump, rc, err, _ = bl.book_run("\n".join(lines) + "\n", fmt)
+        cnt["builds"] += 1
+        if dump is None:
+            disc("build-fails", "build-fails/illegal-move/" + fmt, {"rc": rc, "stderr": err})
+        else:
+            compare(dump, "illegal-move-prefix/" + fmt, {keys[i]: c for i, c in c3.items()}, {(keys[a], m): keys[b] for (a, m), b in e3.items()})
+    # ---- 5. scheduling: the same build under different GOMAXPROCS, and under the race detector
+    for mp in (1, 4, 16):
+        for rep in range(1 if quick else 5):
+            dump, rc, err, _ = bl.book_run(texts["San"], "San", maxprocs=mp)
+            cnt["builds"] += 1
+            if dump is None:
+                disc("build-fails", "build-fails/maxprocs", {"rc": rc, "stderr": err})
+            else:
+                compare(dump, "San/maxprocs=%d" % mp)
+    dump, rc, err, races = bl.book_run(texts["Pgn"], "Pgn", race=True, timeout=600)
+    cnt["builds"] += 1
+    import re
+    for blk in races.split("WARNING: DATA RACE")[1:]:
+        tops = re.findall(r"^\s+(\S+)\(.*?\)\n\s+(\S+?):(\d+)", blk, re.M)
+        if any("/internal/openingbook" in t[1] for t in tops[:6]):
+            disc("data-race", "race/openingbook", blk[:1200])
+    # ---- 6. replay of TLC interleavings through the scheduler gate of addToBook
+    shortg = sorted(set(g[:3] for g in games))
+    byfirst = {}
+    for g in shortg:
+        byfirst.setdefault(g[0], []).append(g)
+    # three games with pairwise different first moves (the gate identifies a goroutine by its first step), two of
+    # which transpose into the same position - that is where the move link depends on the schedule
+    trio = None
+    ends = {}
+    for g in shortg:
+        ends.setdefault(bl.ident(nodes[g]), []).append(g)
+    for idn, gs in ends.items():
+        pair = [(a, b) for a in gs for b in gs if a[0] < b[0]]
+        if pair:
+            a, b = pair[0]
+            third = [g for g in shortg if g[0] not in (a[0], b[0])]
+            if third:
+                trio = [a, b, third[0]]
+                break
+    if trio is None:
+        firsts = sorted(byfirst)
+        trio = [byfirst[f][0] for f in firsts[:3]]
+    if len(trio) < 3:
+        raise Inconclusive("the generated games do not contain three different first moves")
+    ids = {bl.ident(nodes[()]): 0}
+    tg = []
+    for g in trio:
+        steps = []
+        for k in range(1, 4):
+            a, b = bl.ident(nodes[g[:k - 1]]), bl.ident(nodes[g[:k]])
+            for x in (a, b):
+                ids.setdefault(x, len(ids))
+            steps.append("<<%d, %d, %d>>" % (ids[a], g[k - 1], ids[b]))
+        tg.append("<<" + ", ".join(steps) + ">>")
+    mc = ("---- MODULE BookBuildMC ----\nEXTENDS BookBuild\nRealGames == <<" + ", ".join(tg) + ">>\n====\n")
+    cfg2 = "SPECIFICATION Spec\nCONSTANTS\n  Games <- RealGames\nINVARIANTS SchedIndependent LinksSound OneParent Final\nCHECK_DEADLOCK FALSE\n"
+    a2 = vlib.tlc("BookBuildMC", cfg2, files={"BookBuildMC.tla": mc}, workers=8, tag="book-real")
+    ck.add_tlc(a2)
+    finals = []
+    for l in vlib.tlc_lines(a2, '<<"BOOKFINAL"'):
+        finals.append(json.loads(json.loads(l.rstrip()[len('<<"BOOKFINAL", '):-2])))
+    cnt["interleavings"] = len(finals)
+    outcomes = {}
+    for f in finals:
+        outcomes.setdefault(json.dumps(sorted(f["links"])), []).append(f)
+    cnt["distinct_link_outcomes"] = len(outcomes)
+    pick = [v[0] for v in outcomes.values()] + rng.sample(finals, min(len(finals), 30 if quick else 1500))
+    inv = {v: k for k, v in ids.items()}
+    kk = bl.keys_of(list(ids))
+    text3 = "\n".join(bl.render_san(nodes, g) for g in trio) + "\n"
+    nrep = 0
+    for f in pick:
+        schedule = []
+        for (g, st_) in f["order"]:
+            if st_ == 0:
+                continue
+            path = trio[g - 1]
+            schedule.append([kk[bl.ident(nodes[path[:st_ - 1]])], kk[bl.ident(nodes[path[:st_]])]])
+        dump, rc, err, _ = bl.book_run(text3, "San", schedule=schedule, timeout=20)
+        nrep += 1
+        if dump is None:
+            disc("forced-interleaving-fails", "schedule/build-fails", {"rc": rc, "stderr": err, "order": f["order"]})
+            continue
+        pos, links = bl.book_summary(dump)
+        want = {(kk[inv[p]], m): kk[inv[c]] for (p, m, c) in f["links"]}
+        if links != want:
+            disc("links-differ-from-model", "schedule/links", {"order": f["order"], "engine": len(links), "model": len(want)},
+                 {"schedule": schedule, "games": [render for render in text3.splitlines()]})
+    cnt["interleavings_replayed"] = nrep
+    ck.cov["evaluations"] = cnt["builds"] + nrep
+    ck.cov["distinct_nontrivial"] = cnt["distinct_games"]
+    ck.cov["traces_validated_against_impl"] = nrep + cnt["builds"]
+    ck.cov["counters"] = cnt
+    ck.cov["rule"] = ("BookBuild.tla model-checked for all interleavings; %d games generated by ChessGame.tla from the start position (shared "
+                      "prefixes, transpositions, duplicates) rendered as Simple / SAN / PGN (tags, comments, NAGs, nested variations, %% lines) "
+                      "and built with the real package: positions and visit counts against the sequential fold, every offered move against the "
+                      "played legal edges; illegal tokens mid-line; GOMAXPROCS 1/4/16; race detector; interleavings of three real games "
+                      "enumerated by TLC and forced through the addToBook gate, links compared with the model; non-trivial = distinct games"
+                      % len(games))
+    ck.cov["samples"] = [bl.render_san(nodes, games[0]), texts["Pgn"][:400]]
+    ck.assumptions.append("cross-format equality with the Simple format on promotion-free games only (the format has no promotion syntax)")
+    return ck.finish()
+
+
+def check_C20(tier):
+    ck = Check("C20", tier, level="fault_enumeration")
+    quick = tier == "quick"
+    rng = random.Random(SEED)
+    import concurrent.futures
+    import shutil
+    cnt = {}
+
+    def disc(kind, sig, detail, replay=None):
+        ck.discs.append({"prop": "C20", "kind": kind, "sig": sig, "fen": "", "detail": detail, "replay": replay or {}})
+        key = "C20|%s|%s" % (kind, sig)
+        ck.disc_count[key] = ck.disc_count.get(key, 0) + 1
+    # the model: every file state x two initialisations in a row
+    cfg = ("SPECIFICATION Spec\nCONSTANTS\n  Rounds = 3\n  FixUnlock = TRUE\nINVARIANTS TypeOK NoHang ResultIsSourceBook CacheRepaired\n"
+           "PROPERTY Terminates\nCHECK_DEADLOCK FALSE\n")
+    a = vlib.tlc("BookCache", cfg, workers=4, tag="bookcache-mc", keep_out=False)
+    ck.add_tlc(a)
+    art, nodes, games = book_games(tier)
+    books = [("small", games[:3])] + ([] if quick else [("large", games[:500])])
+    nfaults = 0
+    for bname, gs in books:
+        text = "\n".join(bl.render_san(nodes, g) for g in gs) + "\n"
+        ref, rc, err, _ = bl.book_run(text, "San")                        # the book of the source file
+        if ref is None:
+            raise Inconclusive("reference build failed: " + err)
+        refsum = bl.book_summary(ref)
+        run = vlib.scratch("cache")
+        try:
+            d1, rc, err, _ = bl.book_run(text, "San", cache=True, keep_dir=run)       # writes the cache
+            blob = open(os.path.join(run, "book.txt.cache"), "rb").read()
+            # round trip: save -> load equals build
+            d2, rc, err, _ = bl.book_run(None, "San", cache=True, keep_dir=run)
+            if d2 is None or bl.book_summary(d2) != refsum or bl.book_summary(d1)[0] != refsum[0]:
+                disc("cache-round-trip", "roundtrip/" + bname, {"rc": rc, "stderr": err})
+        finally:
+            shutil.rmtree(run, ignore_errors=True)
+        cnt["cache_bytes_" + bname] = len(blob)
+        faults = [("prefix", n, blob[:n]) for n in (range(len(blob)) if len(blob) <= 4096 else
+                                                     list(range(0, 4096)) + list(range(4096, len(blob), 64)))]
+        for i in range(30 if quick else 500):
+            b = bytearray(blob)
+            for _ in range(rng.randint(1, 4)):
+                b[rng.randrange(len(b))] ^= 1 << rng.randrange(8)
+            faults.append(("bitflip", i, bytes(b)))
+        faults += [("garbage", 0, b"\x00" * 100), ("garbage", 1, bytes(rng.randrange(256) for _ in range(300))), ("missing", 0, None)]
+
+        hangs = [0]
+
+        def one(f):
+            kind, n, data = f
+            if hangs[0] >= 24:            # the defect is established: do not wait for hundreds of watchdogs
+                return f, "skipped", 0, ""
+            dump, rc, err, _ = bl.book_run(text, "San", cache=True, rounds=2, prefile=data, timeout=8)
+            if dump is None and rc == -9:
+                hangs[0] += 1
+            return f, dump, rc, err
+        with concurrent.futures.ThreadPoolExecutor(max_workers=12) as ex:
+            for (kind, n, data), dump, rc, err in ex.map(one, faults):
+                if dump == "skipped":
+                    cnt["skipped_after_repeated_hangs"] = cnt.get("skipped_after_repeated_hangs", 0) + 1
+                    continue
+                nfaults += 1
+                tag = kind if kind != "prefix" else ("prefix/empty" if n == 0 else "prefix")
+                if dump is None:
+                    hang = rc == -9
+                    disc("initialisation-%s" % ("hangs" if hang else "crashes"), "cache/%s/%s" % ("hang" if hang else "crash", tag),
+                         {"book": bname, "fault": kind, "at_byte": n, "rc": rc, "stderr": err[-400:]},
+                         {"fault": kind, "bytes": n, "book_text": text[:2000]})
+                elif bl.book_summary(dump)[0] != refsum[0]:
+                    if kind == "bitflip":
+                        cnt["bitflips_still_decodable"] = cnt.get("bitflips_still_decodable", 0) + 1    # not "undecodable": the claim does not apply
+                    else:
+                        disc("wrong-book-after-damaged-cache", "cache/wrong-book/" + tag, {"book": bname, "fault": kind, "at_byte": n})
+    cnt["fault_cases"] = nfaults
+    ck.cov["evaluations"] = nfaults
+    ck.cov["distinct_nontrivial"] = nfaults
+    ck.cov["traces_validated_against_impl"] = nfaults
+    ck.cov["exhaustive"] = True
+    ck.cov["counters"] = cnt
+    ck.cov["rule"] = ("BookCache.tla model-checked (every file state x three initialisations, liveness under fairness); on the real code every "
+                      "prefix length of the written cache file (every crash point of the non-atomic save), seeded bit flips, garbage and a "
+                      "missing file: a child process initialises the book twice in a row under a watchdog and must end with the book of the "
+                      "source file; non-trivial = all fault cases")
+    ck.cov["samples"] = [{"fault": "prefix", "bytes": 17}, {"fault": "bitflip"}, {"fault": "missing"}]
+    ck.assumptions.append("a corrupted (non-prefix) variant that still decodes is not 'undecodable' and is only counted")
     return ck.finish()
 
 
